@@ -105,6 +105,13 @@ pub struct RunOpts {
     pub fresh_process: bool,
 }
 
+/// index of the run executing in this process (for the HUNG line)
+pub static CURRENT_RUN: std::sync::atomic::AtomicU64 = std::sync::atomic::AtomicU64::new(0);
+
+pub fn spec_has_nest(spec: &RunSpec) -> bool {
+    spec.threads.iter().any(|t| t.ops.iter().any(|o| o.plan.iter().any(|a| matches!(a, Act::Nest { .. }))))
+}
+
 /// set once the watchdog had to release a run in this process: the code under test evidently
 /// blocks on something the simulator does not see, so later runs need not wait as long
 static LOST_ONCE: std::sync::atomic::AtomicBool = std::sync::atomic::AtomicBool::new(false);
@@ -830,7 +837,12 @@ pub fn run_spec(spec: &RunSpec, prop: Prop, opts: &RunOpts) -> RunResult {
                 }
             });
         }
-        baton.supervise(opts.patience);
+        if !baton.supervise(opts.patience) {
+            // A client thread is blocked for good. It cannot be killed, so the process ends here;
+            // the driver decides what that means (exit code 3 + this line).
+            println!("HUNG run={} nest={}", CURRENT_RUN.load(std::sync::atomic::Ordering::Relaxed), spec_has_nest(spec) && !stub::NO_NEST.load(std::sync::atomic::Ordering::Relaxed));
+            std::process::exit(3);
+        }
     });
     let summary = baton.summary();
     res.trace = summary.trace;
